@@ -34,9 +34,10 @@ pub(crate) trait CKKSPow2Default<BE: Backend> {
         Scratch<BE>: ScratchTakeCore<BE>,
     {
         let offset = dst.offset_unary(src);
+        let log_budget = checked_log_budget_sub("mul_pow2", src.log_budget(), offset)?;
         self.glwe_lsh(dst, src, bits + offset, scratch);
         dst.meta = src.meta();
-        dst.meta.log_budget = checked_log_budget_sub("mul_pow2", dst.log_budget(), offset)?;
+        dst.meta.log_budget = log_budget;
         Ok(())
     }
 
@@ -66,9 +67,10 @@ pub(crate) trait CKKSPow2Default<BE: Backend> {
         Scratch<BE>: ScratchTakeCore<BE>,
     {
         let offset = dst.offset_unary(src);
+        let log_budget = checked_log_budget_sub("div_pow2", src.log_budget(), bits + offset)?;
         self.glwe_lsh(dst, src, offset, scratch);
         dst.meta = src.meta();
-        dst.meta.log_budget = checked_log_budget_sub("div_pow2", dst.log_budget(), bits + offset)?;
+        dst.meta.log_budget = log_budget;
         dst.meta.log_delta += bits;
         Ok(())
     }
